@@ -1,6 +1,1089 @@
-//! C07 — harness module not built yet.
+//! C07 — price rules: floor, no post-launch increase, honest price query (vending family).
+//! Sale histories of UpdateMintPrice / UpdateDiscountPrice / RemoveDiscountPrice /
+//! SetWhitelist / governance minimum-price changes / mints on the six vending minters,
+//! at the exact instants start±1ns, last discount change + 12h (−1ns, 0, +1ns) and + 1h
+//! (−1ns, 0, +1ns), with prices at min−1/min/min+1 and old−1/old/old+1; after price
+//! changes a *probe* compares the MintPrice query with real mints at quoted−1, quoted+1,
+//! every other advertised price, and exactly the quote.  Creation probes send
+//! create_minter to the real vending factory with the price / denom at the boundary.
+//! The monitors evaluate the property text on Config / MintPrice / factory Params read
+//! before and after each step; every minter step is also printed for the Coq model.
+use crate::chain;
+use crate::util::*;
+use crate::w_sale::*;
 use crate::Args;
-pub fn run(_a: &Args) {
-    eprintln!("C07: harness module not built yet");
-    std::process::exit(2);
+use cosmwasm_std::coin;
+use serde::{Deserialize, Serialize};
+use serde_json::{json, Value};
+use std::collections::{BTreeMap, BTreeSet};
+
+const S: u64 = 1_000_000_000;
+const H12: u64 = 43_200 * S; // 12 hours, from the property text
+const H1: u64 = 3_600 * S; // 1 hour, from the property text
+const KEY_D4: &str = "C07:discount-above-lowered-price";
+const KEY_D8: &str = "C07:non-native-min-price-governance";
+
+#[derive(Clone, Debug, Serialize, Deserialize, PartialEq, Eq)]
+pub enum Step {
+    Op(Op),
+    /// move the clock to t0 + ns (absolute, only forward)
+    AtNs { ns: u64 },
+    /// read MintPrice; `who` mints attaching quoted-1, quoted+1, every other advertised
+    /// price (public / discount / whitelist), and finally exactly the quote
+    Probe { who: String },
+}
+
+#[derive(Clone, Debug, Serialize, Deserialize)]
+pub struct SaleCase {
+    pub variant: usize,
+    pub ibc: bool,
+    pub min_price: u128,
+    pub price: u128,
+    pub start_in: u64,
+    pub num_tokens: u32,
+    pub pal: u32,
+    pub wl: bool,
+    pub wl_price: u128,
+    pub steps: Vec<Step>,
+}
+
+#[derive(Clone, Debug, Serialize, Deserialize)]
+pub struct CreateCase {
+    pub variant: usize,
+    pub ibc: bool,
+    pub min_price: u128,
+    /// price the world's own minter is created with (SaleWorld::new must fail iff below the minimum)
+    pub world_price: u128,
+    /// governance change of the minimum before the probes
+    pub sudo_min: Option<u128>,
+    /// (price, denom is IBC) of further create_minter messages sent to the same factory
+    pub probes: Vec<(u128, bool)>,
+}
+
+#[derive(Clone, Debug, Serialize, Deserialize)]
+pub enum Case {
+    Sale(SaleCase),
+    Create(CreateCase),
+}
+
+pub struct CaseResult {
+    pub coq: Vec<String>,
+    pub steps: u64,
+    pub ok_steps: u64,
+    pub violations: Vec<(String, String, usize)>, // (key, what, index of the step that showed it)
+    pub hist: BTreeMap<String, u64>,
+    pub executed: Vec<Step>,
+}
+
+fn op_kind(op: &Op) -> &'static str {
+    match op {
+        Op::At { .. } => "at",
+        Op::Mint { .. } => "mint",
+        Op::MintM { .. } => "mint_merkle",
+        Op::MintTo { .. } => "mint_to",
+        Op::MintFor { .. } => "mint_for",
+        Op::Purge { .. } => "purge",
+        Op::Shuffle { .. } => "shuffle",
+        Op::BurnRemaining { .. } => "burn_remaining",
+        Op::UpdateMintPrice { .. } => "update_mint_price",
+        Op::UpdateStartTime { .. } => "update_start_time",
+        Op::UpdateStartTradingTime { .. } => "update_start_trading_time",
+        Op::UpdatePerAddressLimit { .. } => "update_per_address_limit",
+        Op::SetWhitelist { .. } => "set_whitelist",
+        Op::UpdateDiscountPrice { .. } => "update_discount_price",
+        Op::RemoveDiscountPrice { .. } => "remove_discount_price",
+        Op::SudoParams { .. } => "sudo_params",
+        Op::WlAddMember { .. } => "wl_add_member",
+    }
+}
+
+fn denom_name(ibc: bool) -> &'static str {
+    if ibc {
+        IBC
+    } else {
+        NATIVE
+    }
+}
+
+fn cfg_of(c: &SaleCase) -> SaleCfg {
+    let mut cfg = SaleCfg::basic(c.variant);
+    cfg.fp.min_price = c.min_price;
+    cfg.fp.denom = denom_name(c.ibc).into();
+    cfg.num_tokens = c.num_tokens;
+    cfg.pal = c.pal;
+    cfg.price = c.price;
+    cfg.start_in_secs = c.start_in;
+    if c.wl {
+        cfg.wl = if VARIANTS[c.variant].flex { WlKind::Flex } else { WlKind::Plain };
+        cfg.wl_price = c.wl_price;
+        cfg.wl_windows = vec![(c.start_in / 3, 2 * c.start_in / 3)];
+        cfg.wl_limit = 3;
+        cfg.wl_flex_count = 3;
+    }
+    cfg
+}
+
+fn amount_of(v: &Value) -> u128 {
+    v["amount"].as_str().and_then(|s| s.parse().ok()).unwrap_or(0)
+}
+fn denom_of(v: &Value) -> String {
+    v["denom"].as_str().unwrap_or("").to_string()
+}
+
+/// what the monitors read before a step
+struct Before {
+    now: u64,
+    cfg: Value,
+    min: Value,
+    wl_active: bool,
+}
+
+/// Runs steps on a world and evaluates the property text on what the contracts answer.
+/// Monitor state below is the monitors' own trace of the history (no model code).
+pub struct Driver {
+    pub w: SaleWorld,
+    pub res: CaseResult,
+    vname: &'static str,
+    created_min_denom: String,
+    gov_min_changed: bool,
+    /// block time of the last accepted discount change (set or removal) in this history
+    pub last_change: Option<u64>,
+    /// discount standing according to the accepted operations seen
+    standing_discount: Option<u128>,
+    /// an accepted UpdateMintPrice went below the discount standing at that moment: (discount, new price)
+    cut_below: Option<(u128, u128)>,
+    /// public price observed at the first step at/after the start, and afterwards
+    started_price: Option<u128>,
+    pub mints_ok: BTreeMap<String, u32>,
+    static_overcharge_reported: bool,
+}
+
+impl Driver {
+    pub fn new(w: SaleWorld) -> Driver {
+        let vname = w.v.name;
+        let created_min_denom = denom_of(&w.factory_params()["min_mint_price"]);
+        Driver {
+            w,
+            res: CaseResult { coq: vec![], steps: 0, ok_steps: 0, violations: vec![], hist: BTreeMap::new(), executed: vec![] },
+            vname,
+            created_min_denom,
+            gov_min_changed: false,
+            last_change: None,
+            standing_discount: None,
+            cut_below: None,
+            started_price: None,
+            mints_ok: BTreeMap::new(),
+            static_overcharge_reported: false,
+        }
+    }
+    pub fn now(&self) -> u64 {
+        chain::now(&self.w.app)
+    }
+    pub fn start(&self) -> u64 {
+        self.w.minter_config()["start_time"].as_str().unwrap().parse().unwrap()
+    }
+    pub fn public_price(&self) -> u128 {
+        amount_of(&self.w.minter_config()["mint_price"])
+    }
+    pub fn discount(&self) -> Option<u128> {
+        let c = self.w.minter_config();
+        c["discount_price"].get("amount").map(|_| amount_of(&c["discount_price"]))
+    }
+    pub fn min_price(&self) -> u128 {
+        amount_of(&self.w.factory_params()["min_mint_price"])
+    }
+    fn violate(&mut self, key: &str, what: String) {
+        let idx = self.res.executed.len().saturating_sub(1);
+        self.res.violations.push((key.to_string(), format!("{}: {}", self.vname, what), idx));
+    }
+    fn wl_active_now(&self, cfg: &Value) -> bool {
+        match cfg["whitelist"].as_str() {
+            Some(a) => self
+                .w
+                .app
+                .wrap()
+                .query_wasm_smart::<Value>(a.to_string(), &json!({"config": {}}))
+                .ok()
+                .and_then(|v| v["is_active"].as_bool())
+                .unwrap_or(false),
+            None => false,
+        }
+    }
+    fn before(&self) -> Before {
+        let cfg = self.w.minter_config();
+        let wl_active = self.wl_active_now(&cfg);
+        Before { now: self.now(), min: self.w.factory_params()["min_mint_price"].clone(), cfg, wl_active }
+    }
+    /// D8 shape: factory created with a non-native minimum, governance has since replaced it
+    /// by a native one, and the minter's new price is still in the creation denom
+    fn is_d8_shape(&self, b: &Before, result_denom: &str) -> bool {
+        self.created_min_denom != NATIVE
+            && self.gov_min_changed
+            && denom_of(&b.min) == NATIVE
+            && result_denom == self.created_min_denom
+            && denom_of(&b.cfg["mint_price"]) == self.created_min_denom
+    }
+    /// classification of "public buyer charged more than the public price"
+    fn overcharge_key(&self, charged: u128, cfg_now: &Value) -> &'static str {
+        let disc_now = cfg_now["discount_price"].get("amount").map(|_| amount_of(&cfg_now["discount_price"]));
+        match self.cut_below {
+            Some((d, p))
+                if self.w.v.name.starts_with("vending-minter")
+                    && charged == d
+                    && disc_now == Some(d)
+                    && self.standing_discount == Some(d)
+                    && amount_of(&cfg_now["mint_price"]) <= p
+                    && amount_of(&cfg_now["mint_price"]) < d =>
+            {
+                KEY_D4
+            }
+            _ => "C07:charged-above-public",
+        }
+    }
+
+    /// one real operation + all monitors
+    pub fn op(&mut self, op: &Op) -> bool {
+        let b = self.before();
+        let out = self.w.run(op);
+        if let Op::SudoParams { min_price: Some(_), .. } = op {
+            if out.ok {
+                self.gov_min_changed = true;
+            }
+        }
+        if !out.is_minter_step {
+            return out.ok;
+        }
+        self.res.steps += 1;
+        if out.ok {
+            self.res.ok_steps += 1;
+        }
+        *self.res.hist.entry(format!("{}:{}:{}", self.vname, op_kind(op), if out.ok { "ok" } else { "err" })).or_insert(0) += 1;
+        if let Some(s) = out.coq {
+            self.res.coq.push(s);
+        }
+        if let Some(e) = &out.err {
+            if e.starts_with("STATE-CHANGED-ON-FAILURE") {
+                self.violate("C07:failed-call-changed-state", format!("{:?}: {}", op, e));
+            }
+        }
+        let a = self.w.minter_config();
+        let admin = b.cfg["admin"].as_str().unwrap_or("").to_string();
+        let start_b: u64 = b.cfg["start_time"].as_str().unwrap().parse().unwrap();
+        let public_b = amount_of(&b.cfg["mint_price"]);
+        let min_b = amount_of(&b.min);
+        let min_denom_b = denom_of(&b.min);
+        let unchanged_except = |fields: &[&str]| -> Option<String> {
+            for k in ["admin", "mint_price", "discount_price", "start_time", "whitelist", "per_address_limit", "num_tokens"] {
+                if !fields.contains(&k) && a[k] != b.cfg[k] {
+                    return Some(format!("Config.{} changed from {} to {}", k, b.cfg[k], a[k]));
+                }
+            }
+            None
+        };
+        if out.ok {
+            match op {
+                Op::UpdateMintPrice { who, price } => {
+                    if *who != admin {
+                        self.violate("C07:price-op-by-non-admin", format!("{:?} accepted from a non-admin", op));
+                    }
+                    if *price < min_b {
+                        self.violate("C07:update-price-below-minimum", format!("UpdateMintPrice {} accepted under a factory minimum of {} {}", price, min_b, min_denom_b));
+                    }
+                    if b.now >= start_b && *price >= public_b {
+                        self.violate(
+                            "C07:price-not-lowered-after-start",
+                            format!("UpdateMintPrice {} accepted at {} (start {}) while the public price was {}", price, b.now, start_b, public_b),
+                        );
+                    }
+                    let res_denom = denom_of(&a["mint_price"]);
+                    if amount_of(&a["mint_price"]) != *price || res_denom != denom_of(&b.cfg["mint_price"]) {
+                        self.violate("C07:update-price-effect", format!("UpdateMintPrice {} accepted but Config.mint_price is {}", price, a["mint_price"]));
+                    }
+                    if let Some(e) = unchanged_except(&["mint_price"]) {
+                        self.violate("C07:update-price-effect", format!("UpdateMintPrice {}: {}", price, e));
+                    }
+                    if res_denom != min_denom_b {
+                        if self.is_d8_shape(&b, &res_denom) {
+                            self.violate(KEY_D8, format!("UpdateMintPrice {} accepted: minter price {} {} under a factory minimum of {} {}", price, price, res_denom, min_b, min_denom_b));
+                        } else {
+                            self.violate("C07:price-denom-differs-from-minimum", format!("UpdateMintPrice {} accepted: price denom {} but the minimum in force is in {}", price, res_denom, min_denom_b));
+                        }
+                    }
+                    if let Some(d) = self.standing_discount {
+                        if *price < d {
+                            self.cut_below = Some((d, *price));
+                        }
+                    }
+                }
+                Op::UpdateDiscountPrice { who, price } => {
+                    if *who != admin {
+                        self.violate("C07:price-op-by-non-admin", format!("{:?} accepted from a non-admin", op));
+                    }
+                    if b.now < start_b {
+                        self.violate("C07:discount-before-start", format!("UpdateDiscountPrice {} accepted at {} before the start {}", price, b.now, start_b));
+                    }
+                    if *price > public_b {
+                        self.violate("C07:discount-above-public", format!("UpdateDiscountPrice {} accepted above the public price {}", price, public_b));
+                    }
+                    if *price < min_b {
+                        self.violate("C07:discount-below-minimum", format!("UpdateDiscountPrice {} accepted under a factory minimum of {} {}", price, min_b, min_denom_b));
+                    }
+                    if let Some(l) = self.last_change {
+                        if b.now < l + H12 {
+                            self.violate(
+                                "C07:discount-set-within-12h",
+                                format!("UpdateDiscountPrice {} accepted {} ns after the previous discount change (12 h = {} ns)", price, b.now - l, H12),
+                            );
+                        }
+                    }
+                    let res_denom = denom_of(&a["discount_price"]);
+                    if a["discount_price"].get("amount").is_none() || amount_of(&a["discount_price"]) != *price || res_denom != denom_of(&b.cfg["mint_price"]) {
+                        self.violate("C07:update-discount-effect", format!("UpdateDiscountPrice {} accepted but Config.discount_price is {}", price, a["discount_price"]));
+                    }
+                    if let Some(e) = unchanged_except(&["discount_price"]) {
+                        self.violate("C07:update-discount-effect", format!("UpdateDiscountPrice {}: {}", price, e));
+                    }
+                    if res_denom != min_denom_b {
+                        if self.is_d8_shape(&b, &res_denom) {
+                            self.violate(KEY_D8, format!("UpdateDiscountPrice {} accepted: discount {} {} under a factory minimum of {} {}", price, price, res_denom, min_b, min_denom_b));
+                        } else {
+                            self.violate("C07:price-denom-differs-from-minimum", format!("UpdateDiscountPrice {} accepted: denom {} but the minimum in force is in {}", price, res_denom, min_denom_b));
+                        }
+                    }
+                    self.last_change = Some(b.now);
+                    self.standing_discount = Some(*price);
+                    self.cut_below = None;
+                }
+                Op::RemoveDiscountPrice { who } => {
+                    if *who != admin {
+                        self.violate("C07:price-op-by-non-admin", format!("{:?} accepted from a non-admin", op));
+                    }
+                    if let Some(l) = self.last_change {
+                        if b.now < l + H1 {
+                            self.violate(
+                                "C07:discount-removed-within-1h",
+                                format!("RemoveDiscountPrice accepted {} ns after the previous discount change (1 h = {} ns)", b.now - l, H1),
+                            );
+                        }
+                    }
+                    if !a["discount_price"].is_null() {
+                        self.violate("C07:remove-discount-effect", format!("RemoveDiscountPrice accepted but Config.discount_price is {}", a["discount_price"]));
+                    }
+                    if let Some(e) = unchanged_except(&["discount_price"]) {
+                        self.violate("C07:remove-discount-effect", format!("RemoveDiscountPrice: {}", e));
+                    }
+                    self.last_change = Some(b.now);
+                    self.standing_discount = None;
+                    self.cut_below = None;
+                }
+                Op::SetWhitelist { who, .. } => {
+                    if *who != admin {
+                        self.violate("C07:price-op-by-non-admin", format!("{:?} accepted from a non-admin", op));
+                    }
+                    if let Some(wl) = a["whitelist"].as_str() {
+                        if let Ok(wc) = self.w.app.wrap().query_wasm_smart::<Value>(wl.to_string(), &json!({"config": {}})) {
+                            let wp = amount_of(&wc["mint_price"]);
+                            let wd = denom_of(&wc["mint_price"]);
+                            if wp < min_b {
+                                self.violate("C07:whitelist-price-below-minimum", format!("SetWhitelist accepted: whitelist price {} under a factory minimum of {} {}", wp, min_b, min_denom_b));
+                            }
+                            if wd != min_denom_b {
+                                self.violate("C07:whitelist-denom-differs-from-minimum", format!("SetWhitelist accepted: whitelist denom {} but the minimum in force is in {}", wd, min_denom_b));
+                            }
+                            if !self.w.v.flex && wd != denom_of(&b.cfg["mint_price"]) {
+                                self.violate("C07:whitelist-denom-differs-from-mint-denom", format!("SetWhitelist accepted: whitelist denom {} but the minter sells in {}", wd, denom_of(&b.cfg["mint_price"])));
+                            }
+                        }
+                    }
+                    if let Some(e) = unchanged_except(&["whitelist"]) {
+                        self.violate("C07:set-whitelist-effect", format!("SetWhitelist: {}", e));
+                    }
+                }
+                Op::Mint { who, funds } | Op::MintM { who, funds, .. } => {
+                    *self.mints_ok.entry(who.clone()).or_insert(0) += 1;
+                    // a public buyer (no whitelist, or whitelist not active) is never charged more than the public price
+                    if !b.wl_active {
+                        let paid: u128 = funds.iter().map(|f| f.1).sum();
+                        if paid > public_b {
+                            let key = self.overcharge_key(paid, &b.cfg);
+                            self.violate(key, format!("public Mint by {} accepted only with {} while the advertised public price is {}", who, paid, public_b));
+                        }
+                    }
+                    if let Some(e) = unchanged_except(&[]) {
+                        self.violate("C07:mint-changed-config", e);
+                    }
+                }
+                _ => {}
+            }
+        }
+        // once the stored start time has passed, the public price never goes up again
+        let start_a: u64 = a["start_time"].as_str().unwrap().parse().unwrap();
+        let public_a = amount_of(&a["mint_price"]);
+        if self.now() >= start_a {
+            if let Some(p) = self.started_price {
+                if public_a > p {
+                    self.violate("C07:public-price-raised-after-start", format!("public price went from {} to {} after the start by {:?}", p, public_a, op));
+                }
+            }
+            self.started_price = Some(public_a);
+        }
+        // MintPrice repeats Config: public and discount prices (and the attached whitelist's own price)
+        if let Some(mp) = self.w.mint_price_q() {
+            if mp["public_price"] != a["mint_price"] || (mp["discount_price"].is_null() != a["discount_price"].is_null())
+                || (!a["discount_price"].is_null() && mp["discount_price"] != a["discount_price"])
+            {
+                self.violate("C07:mint-price-query-differs-from-config", format!("after {:?}: MintPrice {} vs Config mint_price {} discount_price {}", op, mp, a["mint_price"], a["discount_price"]));
+            }
+            let wl_active = self.wl_active_now(&a);
+            if let Some(wl) = a["whitelist"].as_str() {
+                if let Ok(wc) = self.w.app.wrap().query_wasm_smart::<Value>(wl.to_string(), &json!({"config": {}})) {
+                    if mp["whitelist_price"] != wc["mint_price"] || (wl_active && mp["current_price"] != wc["mint_price"]) {
+                        self.violate("C07:mint-price-query-differs-from-whitelist", format!("after {:?}: MintPrice {} but the attached whitelist (active: {}) asks {}", op, mp, wl_active, wc["mint_price"]));
+                    }
+                }
+            }
+            if !wl_active {
+                let expect = if a["discount_price"].is_null() { &a["mint_price"] } else { &a["discount_price"] };
+                if &mp["current_price"] != expect {
+                    self.violate("C07:mint-price-query-current-wrong", format!("after {:?}: MintPrice current {} but Config says discount {} / public {}", op, mp["current_price"], a["discount_price"], a["mint_price"]));
+                }
+            }
+        }
+        // the advertised current price for a public buyer never exceeds the public price
+        if !self.static_overcharge_reported && !self.wl_active_now(&a) {
+            if let Some(mp) = self.w.mint_price_q() {
+                let cur = amount_of(&mp["current_price"]);
+                let pubp = amount_of(&mp["public_price"]);
+                if cur > pubp {
+                    self.static_overcharge_reported = true;
+                    let key = self.overcharge_key(cur, &a);
+                    self.violate(key, format!("after {:?}: MintPrice reports public {} but current {} (the next public mint is charged more than the public price)", op, pubp, cur));
+                }
+            }
+        }
+        out.ok
+    }
+
+    fn probe(&mut self, who: &str) {
+        let mp = match self.w.mint_price_q() {
+            Some(v) => v,
+            None => return,
+        };
+        let cur = (amount_of(&mp["current_price"]), denom_of(&mp["current_price"]));
+        let mut others: Vec<(u128, String)> = vec![];
+        if cur.0 > 1 {
+            others.push((cur.0 - 1, cur.1.clone()));
+        }
+        others.push((cur.0 + 1, cur.1.clone()));
+        for k in ["public_price", "discount_price", "whitelist_price"] {
+            if mp[k].get("amount").is_some() {
+                others.push((amount_of(&mp[k]), denom_of(&mp[k])));
+            }
+        }
+        let mut seen = BTreeSet::new();
+        let mut accepted_other: Option<(u128, String)> = None;
+        for o in others {
+            if o == cur || o.0 == 0 || !seen.insert(o.clone()) {
+                continue;
+            }
+            let ok = self.op(&Op::Mint { who: who.into(), funds: vec![(o.1.clone(), o.0)] });
+            if ok {
+                self.violate(
+                    "C07:mint-accepted-at-unquoted-amount",
+                    format!("MintPrice quoted {} {} but a Mint by {} attaching {} {} was accepted", cur.0, cur.1, who, o.0, o.1),
+                );
+                accepted_other = Some(o);
+                break;
+            }
+        }
+        if accepted_other.is_none() && cur.0 > 0 {
+            self.op(&Op::Mint { who: who.into(), funds: vec![(cur.1.clone(), cur.0)] });
+        }
+    }
+
+    pub fn step(&mut self, st: &Step) {
+        self.res.executed.push(st.clone());
+        match st {
+            Step::Op(op) => {
+                self.op(op);
+            }
+            Step::AtNs { ns } => {
+                self.w.run(&Op::At { secs: ns / S, nanos: (ns % S) as i64 });
+            }
+            Step::Probe { who } => self.probe(who),
+        }
+    }
+}
+
+// ---------- sale cases ----------
+pub fn run_sale(c: &SaleCase, gen: Option<(&mut Rng, usize, &[u128])>) -> CaseResult {
+    let mut w = match SaleWorld::new(cfg_of(c)) {
+        Ok(w) => w,
+        Err(_) => {
+            let mut r = CaseResult { coq: vec![], steps: 0, ok_steps: 0, violations: vec![], hist: BTreeMap::new(), executed: vec![] };
+            *r.hist.entry(format!("{}:create:err", VARIANTS[c.variant].name)).or_insert(0) += 1;
+            return r;
+        }
+    };
+    let init = w.init_state_coq();
+    let init_bal = w.balances_coq();
+    let mut d = Driver::new(w);
+    for st in &c.steps {
+        d.step(st);
+        if d.res.violations.len() > 5 {
+            break;
+        }
+    }
+    if let Some((rng, len, lits)) = gen {
+        for _ in 0..len {
+            let st = next_step(rng, &d, c, lits);
+            d.step(&st);
+            if d.res.violations.len() > 5 {
+                break;
+            }
+        }
+    }
+    let steps = std::mem::take(&mut d.res.coq);
+    let coq = format!("(CSale {})", case_coq(&mut d.w, &init, &init_bal, &steps));
+    d.res.coq = vec![coq];
+    d.res
+}
+
+fn admin_or(rng: &mut Rng) -> String {
+    if rng.chance(9, 10) {
+        CREATOR.into()
+    } else {
+        STRANGER.into()
+    }
+}
+
+fn pick_buyer(rng: &mut Rng, d: &Driver, c: &SaleCase) -> String {
+    let all = [BUYERS[0], BUYERS[1], BUYERS[2], STRANGER, PAYADDR, CREATOR];
+    let open: Vec<&str> = all.iter().copied().filter(|a| d.mints_ok.get(*a).copied().unwrap_or(0) < c.pal).collect();
+    if open.is_empty() || rng.chance(1, 12) {
+        (*rng.pick(&all)).into()
+    } else {
+        (*rng.pick(&open)).into()
+    }
+}
+
+/// next step of a structured random history, chosen from what the contracts report now
+fn next_step(rng: &mut Rng, d: &Driver, c: &SaleCase, lits: &[u128]) -> Step {
+    let t0 = d.w.t0;
+    let now = d.now();
+    let start = d.start();
+    let public = d.public_price();
+    let disc = d.discount();
+    let min = d.min_price();
+    let around = |rng: &mut Rng, x: u128| -> u128 {
+        match rng.below(3) {
+            0 => x.saturating_sub(1),
+            1 => x,
+            _ => x + 1,
+        }
+    };
+    match rng.below(100) {
+        // ---- clock: the guard instants ----
+        0..=27 => {
+            let mut targets: Vec<u64> = vec![];
+            if start + 1 > now {
+                targets.extend([start - 1, start, start + 1]);
+            }
+            if let Some(l) = d.last_change {
+                for base in [l + H12, l + H1] {
+                    for t in [base - 1, base, base + 1] {
+                        if t > now {
+                            targets.push(t);
+                        }
+                    }
+                }
+            }
+            // every small integer literal of the handlers' source, read as hours / minutes after
+            // the last discount change (a changed cooldown constant moves the boundary there)
+            if let Some(l) = d.last_change {
+                if !lits.is_empty() && rng.chance(1, 3) {
+                    let k = *rng.pick(lits) as u64;
+                    let unit = if rng.chance(1, 2) { 3600 * S } else { 60 * S };
+                    for t in [l + k * unit - 1, l + k * unit, l + k * unit + 1] {
+                        if t > now {
+                            targets.push(t);
+                        }
+                    }
+                }
+            }
+            let t = if targets.is_empty() || rng.chance(1, 4) {
+                match rng.below(4) {
+                    0 => now + rng.range(1, 600) * S + rng.below(S),
+                    1 => now + H1 + rng.below(3) - 1,
+                    2 => now + H12 + rng.below(3) - 1,
+                    _ => now + rng.range(1, 20 * 3600) * S,
+                }
+            } else {
+                *rng.pick(&targets)
+            };
+            Step::AtNs { ns: t - t0 }
+        }
+        // ---- public price ----
+        28..=45 => {
+            let price = match rng.below(8) {
+                0 | 1 => around(rng, min),
+                2 | 3 | 4 => around(rng, public),
+                5 => match disc {
+                    Some(x) => around(rng, x),
+                    None => around(rng, public),
+                },
+                6 => rng.range(min as u64, (public.max(min) + 40) as u64) as u128,
+                _ if !lits.is_empty() && rng.chance(1, 3) => {
+                    let l = *rng.pick(lits);
+                    around(rng, l)
+                }
+                _ => public.saturating_sub(rng.range(1, 15) as u128),
+            };
+            Step::Op(Op::UpdateMintPrice { who: admin_or(rng), price })
+        }
+        // ---- discount ----
+        46..=63 => {
+            let price = match rng.below(6) {
+                0 | 1 => around(rng, min),
+                2 | 3 => around(rng, public),
+                _ => rng.range(min.min(public) as u64, public.max(min) as u64) as u128,
+            };
+            Step::Op(Op::UpdateDiscountPrice { who: admin_or(rng), price })
+        }
+        64..=71 => Step::Op(Op::RemoveDiscountPrice { who: admin_or(rng) }),
+        // ---- governance ----
+        72..=79 => {
+            let m = match rng.below(5) {
+                0 => around(rng, public),
+                1 => match disc {
+                    Some(x) => around(rng, x),
+                    None => around(rng, min),
+                },
+                2 => min + rng.range(1, 10) as u128,
+                _ => min.saturating_sub(rng.range(1, 10) as u128).max(1),
+            };
+            Step::Op(Op::SudoParams { min_price: Some(m), mint_fee_bps: None, airdrop_price: None, airdrop_fee_bps: None, offset: None, max_pal: None, shuffle_fee: None })
+        }
+        // ---- whitelist / start time (only meaningful before the start) ----
+        80..=85 => {
+            let flex = VARIANTS[c.variant].flex;
+            let kind = if flex { 2 + rng.below(2) as u8 } else { rng.below(2) as u8 };
+            let price = if rng.chance(2, 3) { around(rng, min) } else { public };
+            let ibc = if rng.chance(5, 6) { c.ibc } else { !c.ibc };
+            let s_in = rng.range(10, 200);
+            Step::Op(Op::SetWhitelist { who: admin_or(rng), kind, start_in: s_in, end_in: s_in + rng.range(50, 400), price, ibc })
+        }
+        86..=88 => {
+            let t = now - t0 + rng.range(1, 2000) * S;
+            Step::Op(Op::UpdateStartTime { who: admin_or(rng), secs: t / S, nanos: (t % S) as i64 })
+        }
+        // ---- the price query against real mints ----
+        _ => Step::Probe { who: pick_buyer(rng, d, c) },
+    }
+}
+
+// ---------- creation probes ----------
+fn fp_coq_of(c: &CreateCase) -> String {
+    let fp = FactoryParams::default();
+    format!(
+        "(mkFP {} {} {} {} 0 {} {} {} {})",
+        c.min_price,
+        if c.ibc { 1 } else { 0 },
+        fp.mint_fee_bps,
+        fp.airdrop_price,
+        fp.airdrop_fee_bps,
+        fp.shuffle_fee,
+        fp.max_per_address,
+        fp.offset_secs
+    )
+}
+
+pub fn run_create(c: &CreateCase) -> CaseResult {
+    let mut r = CaseResult { coq: vec![], steps: 0, ok_steps: 0, violations: vec![], hist: BTreeMap::new(), executed: vec![] };
+    let vname = VARIANTS[c.variant].name;
+    let mut cfg = SaleCfg::basic(c.variant);
+    cfg.fp.min_price = c.min_price;
+    cfg.fp.denom = denom_name(c.ibc).into();
+    cfg.price = c.world_price;
+    cfg.num_tokens = 3;
+    cfg.pal = 1;
+    let res = SaleWorld::new(cfg);
+    r.steps += 1;
+    let ok = res.is_ok();
+    *r.hist.entry(format!("{}:create:{}", vname, if ok { "ok" } else { "err" })).or_insert(0) += 1;
+    r.coq.push(format!("(CCreate {} {} {} {})", fp_coq_of(c), c.world_price, if c.ibc { 1 } else { 0 }, coq_bool(ok)));
+    let mut w = match res {
+        Ok(w) => w,
+        Err(_) => return r,
+    };
+    r.ok_steps += 1;
+    if c.world_price < c.min_price {
+        r.violations.push(("C07:creation-below-minimum".into(), format!("{}: minter created at {} under a factory minimum of {}", vname, c.world_price, c.min_price), 0));
+    }
+    if let Some(m) = c.sudo_min {
+        w.run(&Op::SudoParams { min_price: Some(m), mint_fee_bps: None, airdrop_price: None, airdrop_fee_bps: None, offset: None, max_pal: None, shuffle_fee: None });
+    }
+    let sg721 = w.factory_params()["allowed_sg721_code_ids"][0].as_u64().unwrap();
+    for (i, (price, ibc)) in c.probes.iter().enumerate() {
+        let params = w.factory_params();
+        let min_now = amount_of(&params["min_mint_price"]);
+        let min_denom_now = denom_of(&params["min_mint_price"]);
+        let fp = w.fp_coq();
+        let denom = denom_name(*ibc);
+        let start = chain::now(&w.app) + 1000 * S;
+        let msg = json!({"create_minter": {
+            "init_msg": {
+                "base_token_uri": "ipfs://bafybeigi3bwpvyvsmnbj46ra4hyffcxdeaj6ntfk5jpic5mx27x6ih2qvq/images",
+                "payment_address": null,
+                "start_time": start.to_string(),
+                "num_tokens": 3,
+                "mint_price": {"amount": price.to_string(), "denom": denom},
+                "per_address_limit": 1,
+                "whitelist": null,
+            },
+            "collection_params": {
+                "code_id": sg721, "name": format!("Probe{}", i), "symbol": "PRB",
+                "info": {"creator": CREATOR, "description": "d", "image": "https://example.com/image.png",
+                         "external_link": "https://example.com/external.html", "explicit_content": false,
+                         "start_trading_time": null,
+                         "royalty_info": {"payment_address": CREATOR, "share": "0.1"}}
+            }}});
+        let f = w.factory.clone();
+        let fee = w.cfg.fp.creation_fee;
+        let res = chain::exec(&mut w.app, CREATOR, &f, &msg, &[coin(fee, NATIVE)]);
+        let ok = res.is_ok();
+        r.steps += 1;
+        if ok {
+            r.ok_steps += 1;
+        }
+        *r.hist.entry(format!("{}:create:{}", vname, if ok { "ok" } else { "err" })).or_insert(0) += 1;
+        let did = w.denoms.id(denom);
+        r.coq.push(format!("(CCreate {} {} {} {})", fp, price, did, coq_bool(ok)));
+        if ok && *price < min_now {
+            r.violations.push(("C07:creation-below-minimum".into(), format!("{}: create_minter at {} {} accepted under a factory minimum of {} {}", vname, price, denom, min_now, min_denom_now), i + 1));
+        }
+        if ok && denom != min_denom_now {
+            r.violations.push(("C07:creation-wrong-denom".into(), format!("{}: create_minter at {} {} accepted while the factory minimum is in {}", vname, price, denom, min_denom_now), i + 1));
+        }
+    }
+    r
+}
+
+pub fn run_case(c: &Case, gen: Option<(&mut Rng, usize, &[u128])>) -> CaseResult {
+    match c {
+        Case::Sale(s) => run_sale(s, gen),
+        Case::Create(k) => run_create(k),
+    }
+}
+
+// ---------- corpus ----------
+fn at(ns: u64) -> Step {
+    Step::AtNs { ns }
+}
+fn ump(price: u128) -> Step {
+    Step::Op(Op::UpdateMintPrice { who: CREATOR.into(), price })
+}
+fn udp(price: u128) -> Step {
+    Step::Op(Op::UpdateDiscountPrice { who: CREATOR.into(), price })
+}
+fn rdp() -> Step {
+    Step::Op(Op::RemoveDiscountPrice { who: CREATOR.into() })
+}
+fn sudo_min(m: u128) -> Step {
+    Step::Op(Op::SudoParams { min_price: Some(m), mint_fee_bps: None, airdrop_price: None, airdrop_fee_bps: None, offset: None, max_pal: None, shuffle_fee: None })
+}
+fn probe(who: &str) -> Step {
+    Step::Probe { who: who.into() }
+}
+fn set_wl(variant: usize, start_in: u64, end_in: u64, price: u128, ibc: bool) -> Step {
+    let kind = if VARIANTS[variant].flex { 2 } else { 0 };
+    Step::Op(Op::SetWhitelist { who: CREATOR.into(), kind, start_in, end_in, price, ibc })
+}
+
+fn base_case(variant: usize) -> SaleCase {
+    SaleCase { variant, ibc: false, min_price: 50, price: 100, start_in: 1000, num_tokens: 60, pal: 3, wl: false, wl_price: 60, steps: vec![] }
+}
+
+/// curated minimal histories, every one for each of the six variants
+fn corpus() -> Vec<Case> {
+    let mut v = vec![];
+    let start = 1000 * S;
+    for variant in 0..6 {
+        // (A) every guard at its boundary, in one history
+        let t1 = start; // first discount
+        let t2 = t1 + H1; // removal
+        let t3 = t2 + H12; // second discount
+        let t4 = t3 + H12 + 1; // third discount
+        let t5 = t4 + H1 + 1; // second removal
+        let t6 = t5 + H12; // discount at the raised minimum
+        let mut a = base_case(variant);
+        a.steps = vec![
+            at(start - 1),
+            udp(90),                                                             // before the start: refused
+            ump(49),                                                             // below the minimum: refused
+            ump(50),                                                             // at the minimum: accepted
+            ump(120),                                                            // raise before the start: accepted
+            Step::Op(Op::UpdateMintPrice { who: STRANGER.into(), price: 110 }),  // not the admin
+            Step::Op(Op::UpdateDiscountPrice { who: STRANGER.into(), price: 90 }),
+            probe(BUYERS[0]),                                                    // nothing is sold before the start
+            at(start),
+            ump(121),                                                            // raise at the start instant: refused
+            ump(120),                                                            // same price: refused
+            ump(119),                                                            // lower: accepted
+            probe(BUYERS[0]),
+            udp(120),                                                            // above the public price: refused
+            udp(49),                                                             // below the minimum: refused
+            Step::Op(Op::UpdateDiscountPrice { who: STRANGER.into(), price: 90 }),
+            udp(119),                                                            // equal to the public price: accepted (t1)
+            probe(BUYERS[1]),
+            at(t1 + H1 - 1),
+            rdp(),                                                               // 1 h - 1 ns: refused
+            Step::Op(Op::RemoveDiscountPrice { who: STRANGER.into() }),
+            at(t2),
+            rdp(),                                                               // 1 h: accepted (t2)
+            probe(BUYERS[2]),
+            at(t2 + H12 - 1),
+            udp(80),                                                             // 12 h - 1 ns after the removal: refused
+            at(t3),
+            udp(80),                                                             // 12 h: accepted (t3)
+            probe(BUYERS[0]),
+            at(t3 + H12 - 1),
+            udp(70),                                                             // refused
+            at(t4),
+            udp(50),                                                             // 12 h + 1 ns, at the minimum: accepted (t4)
+            at(t4 + H1 - 1),
+            rdp(),                                                               // refused
+            at(t5),
+            rdp(),                                                               // 1 h + 1 ns: accepted (t5)
+            sudo_min(60),
+            ump(59),                                                             // below the new minimum: refused
+            ump(60),                                                             // accepted
+            probe(BUYERS[1]),
+            sudo_min(55),
+            at(t6),
+            udp(54),                                                             // below the minimum in force (<= public): refused
+            udp(55),                                                             // accepted
+            probe(BUYERS[2]),
+            udp(56),                                                             // 0 ns after the last change: refused
+            at(t6 + 2 * H12),
+            ump(55),                                                             // lower to the discount: accepted (no cut below it)
+            probe(STRANGER),
+        ];
+        v.push(Case::Sale(a));
+        // (B) D4: discount, then a price cut below it
+        let mut b = base_case(variant);
+        b.steps = vec![at(start), udp(80), ump(60), probe(BUYERS[0])];
+        v.push(Case::Sale(b));
+        // (C) D8: minimum of an IBC-denominated factory replaced by governance
+        let mut c = base_case(variant);
+        c.ibc = true;
+        c.steps = vec![ump(49), ump(110), sudo_min(70), ump(69), ump(90), at(start), probe(BUYERS[0]), udp(69), udp(80), probe(BUYERS[1])];
+        v.push(Case::Sale(c));
+        // (C') the same factory without a governance change: everything stays in the IBC denom
+        let mut c2 = base_case(variant);
+        c2.ibc = true;
+        c2.steps = vec![ump(49), ump(110), at(start), ump(90), probe(BUYERS[0]), udp(49), udp(80), probe(BUYERS[1]), set_wl(variant, 10, 100, 60, true)];
+        v.push(Case::Sale(c2));
+        // (D) whitelist price while the attached whitelist is active; replacing it
+        let mut dcase = base_case(variant);
+        dcase.wl = true;
+        dcase.start_in = 3000;
+        dcase.steps = vec![
+            probe(BUYERS[0]),                       // whitelist not yet active, sale not started
+            at(1500 * S),
+            probe(BUYERS[0]),                       // member, whitelist price
+            probe(STRANGER),                        // not a member
+            set_wl(variant, 10, 100, 60, false),    // refused: the attached whitelist is active
+            ump(59),                                // raise/lower before the start is free, the quote stays the whitelist's
+            probe(BUYERS[1]),
+            at(2500 * S),
+            set_wl(variant, 10, 100, 49, false),    // below the minimum: refused
+            set_wl(variant, 10, 100, 50, true),     // other denom: refused
+            set_wl(variant, 10, 100, 50, false),    // accepted
+            at(2520 * S),
+            probe(BUYERS[0]),                       // new whitelist active at 50
+            at(3000 * S),
+            probe(BUYERS[2]),
+        ];
+        v.push(Case::Sale(dcase));
+        // (E) attaching a whitelist to a minter that has none, minimum raised in between
+        let mut e = base_case(variant);
+        e.steps = vec![
+            sudo_min(70),
+            set_wl(variant, 10, 100, 69, false),
+            set_wl(variant, 10, 100, 70, true),
+            set_wl(variant, 10, 100, 70, false),
+            at(50 * S),
+            probe(BUYERS[0]),
+            at(start),
+            set_wl(variant, 10, 100, 80, false),    // after the start: refused
+            probe(BUYERS[0]),
+        ];
+        v.push(Case::Sale(e));
+        // creation at the boundary, through the world constructor and through extra messages
+        for (ibc, wp) in [(false, 49u128), (false, 50), (true, 49), (true, 51)] {
+            v.push(Case::Create(CreateCase {
+                variant,
+                ibc,
+                min_price: 50,
+                world_price: wp,
+                sudo_min: None,
+                probes: vec![(49, ibc), (50, ibc), (51, ibc), (50, !ibc), (1000, !ibc)],
+            }));
+        }
+        v.push(Case::Create(CreateCase {
+            variant,
+            ibc: variant % 2 == 1,
+            min_price: 50,
+            world_price: 50,
+            sudo_min: Some(70),
+            probes: vec![(69, false), (70, false), (71, false), (69, true), (70, true), (50, variant % 2 == 1)],
+        }));
+    }
+    v
+}
+
+fn gen_sale(rng: &mut Rng, variant: usize) -> SaleCase {
+    let min_price = *rng.pick(&[1u128, 50, 50, 77]);
+    let price = min_price + *rng.pick(&[0u128, 1, 30, 50]);
+    let wl = rng.chance(1, 5);
+    SaleCase {
+        variant,
+        ibc: rng.chance(1, 4),
+        min_price,
+        price,
+        start_in: if wl { 3000 } else { *rng.pick(&[600u64, 1000, 5000]) },
+        num_tokens: 60,
+        pal: 3,
+        wl,
+        wl_price: min_price + 5,
+        steps: vec![],
+    }
+}
+
+/// drop steps that are not needed to reproduce the same violation key
+fn shrink(c: &SaleCase, key: &str, what: &str, upto: usize) -> SaleCase {
+    let mut cur = c.clone();
+    cur.steps.truncate(upto + 1);
+    // same key and same kind of observation (the text up to its first number)
+    let kind = |w: &str| -> String { w.chars().take_while(|ch| !ch.is_ascii_digit()).collect() };
+    let want = kind(what);
+    let reproduces = |s: &SaleCase| run_sale(s, None).violations.iter().any(|v| v.0 == key && kind(&v.1) == want);
+    if !reproduces(&cur) {
+        return cur;
+    }
+    let mut budget = 60;
+    let mut chunk = (cur.steps.len() / 2).max(1);
+    while chunk >= 1 && budget > 0 {
+        let mut i = 0;
+        while i + chunk <= cur.steps.len() && budget > 0 {
+            let mut t = cur.clone();
+            t.steps.drain(i..i + chunk);
+            budget -= 1;
+            if !t.steps.is_empty() && reproduces(&t) {
+                cur = t;
+            } else {
+                i += chunk;
+            }
+        }
+        if chunk == 1 {
+            break;
+        }
+        chunk /= 2;
+    }
+    cur
+}
+
+pub fn run(a: &Args) {
+    let out = OutDir::new(&a.out);
+    let mut rep = Report { property: "C07".into(), tier: a.tier.clone(), seed: a.seed, ..Default::default() };
+    let mut rng = Rng::new(a.seed);
+    let mut files: Vec<String> = VARIANTS.iter().map(|v| format!("contracts/minters/{}/src/contract.rs", v.name)).collect();
+    files.push("contracts/factories/vending-factory/src/contract.rs".into());
+    let lits: Vec<u128> = harvest_literals(&files.iter().map(|s| s.as_str()).collect::<Vec<_>>()).into_iter().filter(|x| *x >= 1 && *x <= 1000).collect();
+    // (case, number of generated steps to append online)
+    let cases: Vec<(Case, usize)> = if let Some(p) = &a.replay {
+        #[derive(Deserialize)]
+        struct ReplayFile {
+            case: Case,
+        }
+        let rf: ReplayFile = serde_json::from_str(&std::fs::read_to_string(p).expect("replay file")).expect("replay json");
+        vec![(rf.case, 0)]
+    } else {
+        let mut v: Vec<(Case, usize)> = corpus().into_iter().map(|c| (c, 0)).collect();
+        let per_variant = if a.thorough() { 80 } else { 12 };
+        for variant in 0..6 {
+            for _ in 0..per_variant {
+                let len = rng.range(35, 60) as usize;
+                v.push((Case::Sale(gen_sale(&mut rng, variant)), len));
+            }
+        }
+        v
+    };
+    let mut coq_cases = vec![];
+    let mut nviol = 0;
+    let mut seen_keys: BTreeMap<String, u32> = BTreeMap::new();
+    for (i, (c, len)) in cases.iter().enumerate() {
+        let r = run_case(c, if *len > 0 { Some((&mut rng, *len, &lits[..])) } else { None });
+        rep.evaluations += r.steps;
+        rep.distinct_nontrivial += r.ok_steps;
+        for (k, v) in &r.hist {
+            *rep.histogram.entry(k.clone()).or_insert(0) += v;
+        }
+        // the concrete case (generated steps included)
+        let concrete = match c {
+            Case::Sale(s) => {
+                let mut s2 = s.clone();
+                s2.steps = r.executed.clone();
+                Case::Sale(s2)
+            }
+            Case::Create(k) => Case::Create(k.clone()),
+        };
+        let mut keys_here = BTreeSet::new();
+        // one replay per key and case: the first occurrence, except for D4 where the last one
+        // is taken so that the replay contains the over-charged mint itself when the history has one
+        let mut chosen: Vec<&(String, String, usize)> = vec![];
+        for v in r.violations.iter() {
+            if keys_here.insert(v.0.clone()) {
+                chosen.push(v);
+            } else if v.0 == KEY_D4 {
+                if let Some(slot) = chosen.iter_mut().find(|c| c.0 == v.0) {
+                    *slot = v;
+                }
+            }
+        }
+        for (key, what, idx) in chosen.into_iter() {
+            let n = seen_keys.entry(key.clone()).or_insert(0);
+            *n += 1;
+            if *n > 3 {
+                continue; // three replays per shape are enough
+            }
+            nviol += 1;
+            let small = match &concrete {
+                Case::Sale(s) if a.replay.is_none() => Case::Sale(shrink(s, key, what, *idx)),
+                other => other.clone(),
+            };
+            let body = format!(
+                "{{\n \"property\": \"C07\",\n \"key\": {},\n \"case\": {},\n \"violation\": {}\n}}\n",
+                serde_json::to_string(key).unwrap(),
+                serde_json::to_string(&small).unwrap(),
+                serde_json::to_string(what).unwrap()
+            );
+            let path = out.write_replay(&format!("C07-{}.json", nviol), &body);
+            rep.violations.push(Violation { key: key.clone(), what: what.clone(), replay: path });
+        }
+        if rep.samples.len() < 3 && (i % 11 == 0 || a.replay.is_some()) {
+            rep.samples.push(match &concrete {
+                Case::Sale(s) => json!({"variant": VARIANTS[s.variant].name, "ibc_factory": s.ibc, "min_price": s.min_price.to_string(),
+                    "price": s.price.to_string(), "first_steps": s.steps.iter().take(8).map(|o| format!("{:?}", o)).collect::<Vec<_>>(),
+                    "minter_steps": r.steps, "ok_steps": r.ok_steps}),
+                Case::Create(k) => json!({"variant": VARIANTS[k.variant].name, "create": format!("{:?}", k)}),
+            });
+        }
+        coq_cases.extend(r.coq);
+    }
+    rep.rule = "sale histories (UpdateMintPrice/UpdateDiscountPrice/RemoveDiscountPrice/SetWhitelist/sudo min_mint_price/UpdateStartTime/probing mints at quoted-1, quoted+1, other advertised prices and the quote) on each of the six vending minters, native and IBC-denominated factories, at start±1ns, +12h(−1,0,+1 ns), +1h(−1,0,+1 ns), prices at min±1 / old±1 / discount±1; plus create_minter probes at min−1/min/min+1 and the other denom; corpus first. evaluations = minter steps and creation messages executed on the real contracts; distinct_nontrivial = those that were accepted (state-changing)".into();
+    out.write_cases("C07", "From LP Require Import Num Pay Sg1 Bank MinterVending CreatePrice SaleCorr C07Corr.", "c07_case", "c07_check", &coq_cases, 6, &mut rep);
+    out.finish(&rep);
+    println!("C07 harness: {} cases, {} steps, {} monitor violations", cases.len(), rep.evaluations, nviol);
 }
